@@ -2,6 +2,7 @@ package scen
 
 import (
 	"context"
+	"errors"
 	"fmt"
 	"regexp"
 	"sort"
@@ -39,13 +40,16 @@ var tokenRe = regexp.MustCompile(`tok-[0-9]+-[0-9]+`)
 type muxOp struct {
 	token    string
 	prepared bool
-	cancel   context.CancelFunc
-	canceled bool
-	inflight bool
-	invoke   int
-	ret      int
-	outcome  string
-	got      string
+	// a batch with a named value: its statement is prepared, its frame cannot be built
+	// (named values are not supported in batches), nothing of it may reach the wire
+	unbuildable bool
+	cancel      context.CancelFunc
+	canceled    bool
+	inflight    bool
+	invoke      int
+	ret         int
+	outcome     string
+	got         string
 }
 
 type streamObs struct {
@@ -220,7 +224,7 @@ func runMux(e *Env) {
 			}
 			for oi := 0; oi < n; oi++ {
 				token := fmt.Sprintf("tok-%d-%d", ti, oi)
-				op := &muxOp{token: token, prepared: (ti+oi)%3 == 0}
+				op := &muxOp{token: token, prepared: (ti+oi)%3 == 0, unbuildable: !flood && (2*ti+oi)%5 == 4}
 				if !t.Step("q " + token) {
 					return
 				}
@@ -233,7 +237,14 @@ func runMux(e *Env) {
 				mu.Unlock()
 				var got string
 				var err error
-				if op.prepared {
+				if op.unbuildable {
+					b := sess.NewBatch(gocql.UnloggedBatch).WithContext(ctx)
+					b.Query(prepStmt, gocql.NamedValue("k", token))
+					err = sess.ExecuteBatch(b)
+					if err == nil {
+						err = errors.New("a batch with a named value was executed")
+					}
+				} else if op.prepared {
 					err = sess.Query(prepStmt, token).WithContext(ctx).Scan(&got)
 				} else {
 					err = sess.Query("ECHO '" + token + "'").WithContext(ctx).Scan(&got)
@@ -408,6 +419,9 @@ func muxCheckOutcome(k *kernel.Kernel, op *muxOp, err error, got string) {
 		// while a PREPARE for this statement was in flight on it
 	default:
 		if strings.Contains(cls, "unable to read frame body") || strings.Contains(cls, "connection reset") {
+			return
+		}
+		if op.unbuildable && strings.Contains(err.Error(), "named query values are not supported in batches") {
 			return
 		}
 		k.Violate("C06", "C06/unexpected-outcome", "request %s ended with an outcome outside the documented set: %v", op.token, err)
